@@ -72,6 +72,8 @@ def how_label(sc, rec):
             return f"thrown:{f['exc']}"
         if f["kind"] == "hook":
             return f"hook-raised:{f['hook']}:{f['exc']}"
+        if f["kind"] == "breaker":
+            return f"interrupted-inside:{f['op']}:{f['exc']}"
     v = View(rec, sc)
     how, s = run_ending(v)
     if how == "special":
@@ -190,6 +192,10 @@ def enumerate_faults(ctx, base, entry, rng, tier, stats):
         for i in range(n):
             for k in (("kbd", "sysexit", "cancel") if tier != "quick" or i < 3 else ("kbd",)):
                 plans.append({"kind": "hook", "hook": hk, "at": i, "exc": k})
+    # an interrupt landing inside the breaker's own record method, before it changed anything: the call still owes its report
+    for opn in ("record_success", "record_failure"):
+        for k in ("kbd", "sysexit", "cancel"):
+            plans.append({"kind": "breaker", "op": opn, "exc": k})
     if entry.startswith("a"):
         for sp in range(clean.suspensions):
             for k in THROW_KINDS:
@@ -249,13 +255,15 @@ def conclude(ctx):
         "settle:op-raised": (ctx.cnt["settle:op-raised"], 200),
         "settle:ended": (ctx.cnt["settle:ended"], 200),
         "settle:hook-raised": (ctx.cnt["settle:hook-raised"], 200),
+        "settle:interrupted-inside": (ctx.cnt["settle:interrupted-inside"], 200),
         "distinct (entry, termination) cells": (len(ctx.sets["cells"]), 60),
     }
     return dict(
         rule=(
             "fault enumeration: per base scenario x 6 breaker-carrying entry points, a clean run discovers callback invocations (classifier, result classifier, strategy, "
             "abort predicate, sleep handler, sleeper, attempt start/end hooks), suspension points and attempts; one injected run per (callback invocation x exception kind), "
-            "(suspension point x {CancelledError, KeyboardInterrupt, SystemExit, close()}), (attempt x 8 special exceptions), (abort poll index); "
+            "(suspension point x {CancelledError, KeyboardInterrupt, SystemExit, close()}), (attempt x 8 special exceptions), (abort poll index), "
+            "(interrupt landing inside breaker.record_success / record_failure before it acts x 3 kinds); "
             "distinct_nontrivial = distinct (entry, termination kind) cells in which an admitted call was judged"
         ),
         evaluations=ctx.cnt["injected_runs"],
